@@ -2,8 +2,9 @@ import SlipVerif.Model.Clos
 import SlipVerif.Driver.Util
 --! namespace: clos
 /- line protocol for C12:  clos run <token>*      (one reply word per token)
-   D:<c>:<supers>:<slots>   defclass; supers = c,c,… | - ; slots = slot;slot;… | - ;
-                            slot = <name>/<initarg,initarg,…|->/<initform|->          reply  d
+   D:<c>:<supers>:<slots>[:<k=v,…>]  defclass; supers = c,c,… | - ; slots = slot;slot;… | - ;
+                            slot = <name>/<initarg,initarg,…|->/<initform|->; optional fifth field:
+                            (:default-initargs k v …)                                 reply  d
    P:<c>                    class precedence list                                     reply  c.a.b | !notready
    M:<c>:<k=v,k=v,…|->      make-instance (becomes the current instance)              reply  [?]x=v,y=u,… | - | !notready | !badarg
    W:<x>:<v>:<how>:<k>      write slot x of the current instance; how = s (setf slot-value) |
@@ -21,7 +22,9 @@ import SlipVerif.Driver.Util
    G:<g>:<k,k,…>  H:<g>     (add) methods on the listed classes to the persistent generic function g /
                             call it on the current instance                            reply  g / k.k
    slots are reported sorted by slot name, `u` = unbound; a leading `?` marks a make-instance whose
-   supplied initargs reach one slot through two different names (outcome not fixed by the property). -/
+   supplied initargs reach one slot through two different names (outcome not fixed by the property),
+   a leading `~` one of a class that has a class with default initargs above it (slip does not
+   inherit them, Common Lisp does; not constrained). -/
 namespace SlipVerif.Driver.Clos
 open SlipVerif.Clos SlipVerif.Driver
 
@@ -95,6 +98,11 @@ def step (r : Run) (tok : String) : Run :=
     | some c, some sup, some sl =>
       say { r with w := defclassW r.w c { supers := sup, slots := sl } } "d"
     | _, _, _ => fail "defclass"
+  | ["D", c, sup, slots, dflt] =>
+    match c.toNat?, natList? sup, (listOf slots ";").mapM parseSlot?, parseArgs? dflt with
+    | some c, some sup, some sl, some df =>
+      say { r with w := defclassW r.w c { supers := sup, slots := sl, defaults := df } } "d"
+    | _, _, _, _ => fail "defclass"
   | ["P", c] =>
     match c.toNat? with
     | some c =>
@@ -110,7 +118,12 @@ def step (r : Run) (tok : String) : Run :=
         let amb := match precOf r.w.st c with
           | some p => ambiguous (slotDefsOf r.w.st p) args
           | none => false
-        say { r with cur := some o, curReg := none } ((if amb then "?" else "") ++ showInst o.slots)
+        -- a class above c has default initargs: whether they are inherited is not constrained
+        let inhd := match inhOf r.w.st c with
+          | some l => l.any (fun k => !(defaultsOf r.w.st k).isEmpty)
+          | none => false
+        say { r with cur := some o, curReg := none }
+          ((if inhd then "~" else "") ++ (if amb then "?" else "") ++ showInst o.slots)
       | .error .notReady => say { r with cur := none, curReg := none } "!notready"
       | .error .badInitarg => say { r with cur := none, curReg := none } "!badarg"
     | _, _ => fail "make"
